@@ -91,6 +91,10 @@ def gen_scenario(rng, fam):
                                       'E%d.%d partial' % (i, k),
                                       'E%d.%d progress 10%%\r20%%\r\n'
                                       % (i, k),
+                                      # a message that is not UTF-8 (Latin-1
+                                      # bytes, written as surrogate escapes)
+                                      'E%d.%d \udce9chec: fichier non '
+                                      'trouv\udce9\n' % (i, k),
                                       # more than a pipe holds
                                       ('E%d.%d long ' % (i, k)) * 7000
                                       + '\n')),
@@ -108,6 +112,7 @@ def gen_scenario(rng, fam):
             if any(not isinstance(a, str) for a in cmd['args']) and not real:
                 cmd['start'] = 'BADARG'
             elif real:
+                cmd['err'] = cmd['err'].replace('\udce9', 'e')
                 cmd['args'] = [a for a in cmd['args'] if isinstance(a, str)
                                and a.isprintable() and '\udce9' not in a]
             if rng.random() < p_fail and not cmd['start']:
@@ -385,13 +390,13 @@ def run_scenario(scn, chooser, max_steps=200000):
                 return
             cmd = self._cmd
             half = len(cmd['out']) // 2
-            self._emit('out', cmd['out'][:half].encode())
+            self._emit('out', cmd['out'][:half].encode('utf-8', 'surrogateescape'))
             if cmd['dur']:
                 sim.sleep(cmd['dur'] * sim.tick, 'proc')
             else:
                 sim.yield_point('proc')
-            self._emit('err', cmd['err'].encode())
-            self._emit('out', cmd['out'][half:].encode())
+            self._emit('err', cmd['err'].encode('utf-8', 'surrogateescape'))
+            self._emit('out', cmd['out'][half:].encode('utf-8', 'surrogateescape'))
             if not drained and any(len(buf) > PIPE_CAPACITY
                                    for buf in self._pending.values()):
                 sim.hit('child-blocked-on-a-full-pipe')
@@ -411,8 +416,8 @@ def run_scenario(scn, chooser, max_steps=200000):
         def _take(self, name):
             data, self._pending[name] = self._pending[name], b''
             if self._text:
-                return data.decode('utf-8').replace('\r\n', '\n') \
-                    .replace('\r', '\n')
+                return data.decode('utf-8', 'surrogateescape') \
+                    .replace('\r\n', '\n').replace('\r', '\n')
             return data
 
         # -- the parent's view --------------------------------------------
@@ -625,13 +630,14 @@ def run_scenario(scn, chooser, max_steps=200000):
                         fpath = os.path.join(tdir, fname)
                         if os.path.isfile(fpath):
                             with open(fpath, 'rb') as fil:
-                                got[fname] = fil.read().decode('utf-8',
-                                                                'replace')
+                                got[fname] = fil.read().decode(
+                                    'utf-8', 'surrogateescape')
                 lpath = os.path.join(log_root, name + '.log') \
                     if name_valid(name) else None
                 if lpath and os.path.isfile(lpath):
                     with open(lpath, 'rb') as fil:
-                        got['<log>'] = fil.read().decode('utf-8', 'replace')
+                        got['<log>'] = fil.read().decode('utf-8',
+                                                     'surrogateescape')
                 res.files[i] = got
         res.log_root = log_root
         res.top_level = sorted(os.listdir(root)) if os.path.isdir(root) \
